@@ -61,7 +61,9 @@ func genC18Aging(seed uint64, run int) *Plan {
 	p := &Plan{Prop: "C18", Seed: seed, Run: run}
 	p.Cfg = Cfg{Store: "mem", Strategy: pick(r, "random", "random", "pct", "sticky"), PCTDepth: 1 + r.IntN(3), ExpireMs: 60000, Variant: "aging"}
 	age := pick(r, int64(1000), 2500)
-	pause := func() int64 { return pick(r, int64(0), int64(0), age/2, age+200, 2*age+100) }
+	// all pauses on one grid of age/2: uploader steps and Cleanup calls then often fall on the same simulated
+	// instant, where only the scheduler decides their order (a marker exactly age old is not yet stale)
+	pause := func() int64 { return pick(r, int64(0), int64(0), age/2, age, 3*age/2, 2*age) }
 	for ti, n := 0, 1+r.IntN(2); ti < n; ti++ {
 		cs := pick(r, 3, 8, 16)
 		tp := TaskPlan{Name: fmt.Sprintf("up%d", ti), Role: "uploader"}
@@ -96,7 +98,7 @@ func genC18Aging(seed uint64, run int) *Plan {
 	}
 	j := TaskPlan{Name: "janitor", Role: "janitor"}
 	for n := 2 + r.IntN(3); n > 0; n-- {
-		j.Ops = append(j.Ops, Op{K: "sleep", Ms: pick(r, age/2, age, age+300)})
+		j.Ops = append(j.Ops, Op{K: "sleep", Ms: pick(r, age/2, age, 3*age/2)})
 		j.Ops = append(j.Ops, Op{K: "gfs.cleanup", C: "tr", Ms: age})
 	}
 	p.Tasks = append(p.Tasks, j)
